@@ -9,7 +9,7 @@ META = {
             'of pieces through output.text.',
     'bounds': {
         'quick': 'inline payload: all Latin-1 strings len<=2 (no line breaks, no $, self-closing per the documented brace/backslash '
-                 'rules, not starting with `<`); token-level payload 1..2 chars in 4 placements; wrap: 9 templates x 1..2 lines '
+                 'rules, not starting with `<`); token-level payload 1..2 chars in 5 placements; wrap: 9 templates x 1..2 lines '
                  'of 0..2 chars each over ASCII printable + tab, and single-string text',
         'thorough': 'inline payload len<=3; wrap: 1..3 lines',
     },
@@ -94,6 +94,7 @@ PLACEMENTS = {
     'text-then-child': ('ex{QZ1}>ey', ['<ex>', 0, '<ey></ey></ex>']),
     'text-node-sibling': ('ex>{QZ1}+ey', ['<ex>', 0, '<ey></ey></ex>']),
     'text-in-repeat': ('ex*2>ey{QZ1}', ['<ex><ey>', 0, '</ey></ex><ex><ey>', 0, '</ey></ex>']),
+    'text-on-self-closing': ('ex>ey{QZ1}/', ['<ex><ey>', 0, '</ey></ex>']),
 }
 
 
@@ -157,6 +158,7 @@ SINGLE = {
     'ex+ey': ['<ex></ex><ey>', 0, '</ey>'],
     'ex{q}': ['<ex>q', 0, '</ex>'],
     'ex>ey*2': ['<ex><ey></ey><ey>', 0, '</ey></ex>'],
+    'ex>ey/': ['<ex><ey>', 0, '</ey></ex>'],
 }
 
 
